@@ -305,6 +305,33 @@ def check_xml_tables(ctx, an, model):
                 % (kind, tag, kind, sorted(kinds)) if kind not in kinds else
                 "for tag %r the reader can also produce %s" % (tag, sorted(kinds - allowed))), node=rets[0] if rets else None)
 
+    # ------------------------------------------------------------------ string payload read back verbatim
+    from engine.flow import dominating_guards
+    sp = rspec.get("str")
+    if sp is not None:
+        for r in sp.returns():
+            if r.ast.value is None:
+                continue
+            for k, p in sp.sources(r.ast.value, r):
+                bad = None
+                if k == "expr" and isinstance(p, ast.Attribute) and p.attr == "text":
+                    pass
+                elif k == "expr" and isinstance(p, ast.Constant) and p.value == "":
+                    par = getattr(p, "_parent", None)
+                    in_or = isinstance(par, ast.BoolOp) and isinstance(par.op, ast.Or) and any(
+                        isinstance(v, ast.Attribute) and v.attr == "text" for v in par.values[:par.values.index(p)])
+                    at = sp.where.get(id(p))
+                    guarded = at is not None and any(
+                        (isinstance(t.ast, (ast.Name, ast.Attribute)) and not tr) or
+                        (isinstance(t.ast, ast.Compare) and isinstance(t.ast.ops[0], ast.Is) and tr) for t, tr in dominating_guards(an, fe, at))
+                    if not (in_or or guarded):
+                        bad = "replaced by '' at line %s under a condition other than 'no text'" % getattr(p, "lineno", "?")
+                else:
+                    bad = "transformed by `%s`" % (ast.unparse(p)[:40] if isinstance(p, ast.AST) else k)
+                ctx.ob("xml.str-payload-verbatim", fe, r.ast, bad is None,
+                       "a string element decodes to its text exactly ('' when the element has none)" if bad is None else
+                       "the text of a string element is %s before it becomes the value: strings do not survive the round trip" % bad, node=r)
+
     # ------------------------------------------------------------------ children: writer
     for kind, want0, want1 in (("list", {("const", "item")}, {("elem",)}), ("dict", {("key",)}, {("val",)})):
         sp = wspec.get(kind)
